@@ -177,6 +177,13 @@ def linearise(e: Optional[ast.AST], cond: bool = False) -> List[Item]:
         out += linearise(e.value, cond)
         out.append(Item("step", e, cond))
         return out
+    if isinstance(e, ast.BinOp) and isinstance(e.op, ast.Mod) and isinstance(e.left, (ast.Constant, ast.JoinedStr)) \
+            and (isinstance(e.left, ast.JoinedStr) or isinstance(e.left.value, str)) and not isinstance(e.right, (ast.Tuple, ast.Dict)):
+        # "<template>" % value: with a value the caller knows nothing about this is a step that can fail (a tuple is taken for
+        # the argument list: TypeError unless its length fits)
+        out += linearise(e.left, cond) + linearise(e.right, cond)
+        out.append(Item("step", e, cond))
+        return out
     for ch in ast.iter_child_nodes(e):
         if isinstance(ch, ast.expr) or isinstance(ch, (ast.keyword, ast.Starred, ast.FormattedValue, ast.Slice)):
             out += linearise(ch, cond)
@@ -209,6 +216,28 @@ class CFG:
             for s, (k, tok) in n.succ:
                 lines.append(f"      -{k}{'[' + ExcHier.short(tok[0]) + ('' if tok[1] else '+') + ']' if tok else ''}-> {s.id}")
         return "\n".join(lines)
+
+
+def _always_leaves(stmts: List[ast.stmt]) -> bool:
+    """control cannot fall off the end of this statement list (it ends in return / raise on every path)"""
+    if not stmts:
+        return False
+    last = stmts[-1]
+    if isinstance(last, (ast.Return, ast.Raise)):
+        return True
+    if isinstance(last, ast.If):
+        return _always_leaves(last.body) and _always_leaves(last.orelse)
+    if isinstance(last, ast.Try):
+        if last.finalbody and _always_leaves(last.finalbody):
+            return True
+        main = _always_leaves(last.orelse) if last.orelse else _always_leaves(last.body)
+        return main and all(_always_leaves(h.body) for h in last.handlers)
+    if isinstance(last, (ast.With, ast.AsyncWith)):
+        return _always_leaves(last.body) and not any(isinstance(i.context_expr, ast.Call) and getattr(i.context_expr.func, "id", getattr(i.context_expr.func, "attr", "")) == "suppress"
+                                                      for i in last.items)
+    if isinstance(last, ast.While) and isinstance(last.test, ast.Constant) and last.test.value is True:
+        return not any(isinstance(x, ast.Break) for x in ast.walk(last))
+    return False
 
 
 def bind_args(call: ast.Call, t: FuncInfo, caller: FuncInfo, caller_env):
@@ -280,6 +309,8 @@ class Analyzer:
         self.inlined_calls: List[Tuple[str, str, int]] = []
         self.spliced_at: Dict[int, FuncInfo] = {}  # id(call expression) -> helper spliced there
         self.partial_syn: Dict[tuple, ast.Call] = {}  # id(call of a partial object) -> the equivalent direct call F(frozen args + own args)
+        self.live_returns: Dict[int, Set[int]] = {}  # id(call of a spliced helper) -> ids of the helper's Return statements built for it
+        self.syn_callee: Dict[int, Callee] = {}  # id(stand-in call) -> what it calls
         self.syn_by_call: Dict[int, List[ast.Call]] = {}  # call made through a callable value -> the stand-in calls that spell it out
         self.syn_arg_frame: Dict[int, tuple] = {}  # argument of a stand-in call written in another frame -> (function, env) of that frame
         self.partial_frame: Dict[tuple, tuple] = {}  # ... and the frame (function, env) in which the partial was built
@@ -779,6 +810,16 @@ class Builder:
         return t
 
     def _bind(self, call: ast.Call, t: FuncInfo):
+        syn = self.an.partial_syn.get((id(call), id(self.env)))
+        if syn is not None:
+            # a call through a callable value: bound as the stand-in call that spells out the arguments, each argument in the
+            # frame that wrote it (the helper's surplus arguments belong to its caller)
+            env = bind_args(syn, t, self.f, self.env)
+            for pn, (fr_, arg, env_) in list(env.items()):
+                tag = self.an.syn_arg_frame.get(id(arg))
+                if tag is not None:
+                    env[pn] = (tag[0], arg, tag[1])
+            return env
         return bind_args(call, t, self.f, self.env)
 
     def _raise_spliced(self, st: ast.Raise, call: ast.Call, t: FuncInfo, ctx: Ctx) -> Node:
@@ -1007,7 +1048,8 @@ class Builder:
 
         return self._inline_routed(aw, call, t, route, ctx, stmt)
 
-    def _inline_routed(self, aw: Optional[ast.Await], call: ast.Call, t: FuncInfo, route: Callable[[Optional[ast.Return]], Node], ctx: Ctx, stmt: ast.AST) -> Node:
+    def _inline_routed(self, aw: Optional[ast.Await], call: ast.Call, t: FuncInfo, route: Callable[[Optional[ast.Return]], Node], ctx: Ctx, stmt: ast.AST,
+                       lazy_fall: bool = False) -> Node:
         """Splice helper t; route(return statement | None for falling off the end) names the continuation of each way out."""
         n = self.mk("await" if aw is not None else "call", aw if aw is not None else call, stmt)
         if aw is not None:
@@ -1023,7 +1065,7 @@ class Builder:
         self.an.inlined_calls.append((self.root_f.qual, t.qual, id(call)))
         self.an.spliced_at[id(call)] = t
         self.an.threaded.add(id(call))
-        fall = route(None)
+        fall = self.mk("unreachable", call, stmt) if lazy_fall else route(None)  # (lazy_fall: the helper's body never falls off its end)
         self.f, self.sc, self.env, self.inline_stack = t, self.an.scope(t), env, self.inline_stack + [t.qual]
         try:
             top = Ctx((lambda: fall), None, None, ctx.raise_, None, route)
@@ -1078,11 +1120,40 @@ class Builder:
                 out.append((x, "method:" + v.attr, v))
             elif isinstance(v, ast.Name) and self._is_marker(t, v.id):
                 out.append((x, "marker:" + v.id, v))
+            elif self._never_none(t, v):
+                out.append((x, "other-nn:%d:%d" % (x.lineno, x.col_offset), v))
             else:
                 out.append((x, "other:%d:%d" % (x.lineno, x.col_offset), v))
         if not any(k_.startswith("marker:") for _x, k_, _v in out) and any(k_.startswith("other:") for _x, k_, _v in out):
-            return None  # (a computed value is told apart only from a marker object)
+            return None  # (a computed value is told apart only from a marker object - or, when it cannot be None, from None)
+        if any(k_.startswith("other-nn:") for _x, k_, _v in out) and not any(k_ in ("const:None",) or k_.startswith("marker:") for _x, k_, _v in out):
+            return None
         return out
+
+    def _never_none(self, t: FuncInfo, v: ast.AST) -> bool:
+        """the value of this return expression of helper t is certainly not None: a display, a constructor call, or a call of a
+        package function whose declared return type does not admit None"""
+        if isinstance(v, (ast.Tuple, ast.List, ast.Dict, ast.Set, ast.JoinedStr, ast.ListComp, ast.SetComp, ast.DictComp)):
+            return True
+        if isinstance(v, ast.Await):
+            v = v.value
+        if not isinstance(v, ast.Call):
+            return False
+        cal = self.an.scope(t).callee(v)
+        if cal.kind == "ctor":
+            return True
+        if cal.kind != "pkg" or not cal.targets:
+            return False
+        for tg in cal.targets:
+            ann = tg.node.returns
+            if ann is None:
+                return False
+            txt = ast.unparse(ann)
+            if isinstance(ann, ast.Constant) and isinstance(ann.value, str):
+                txt = ann.value
+            if "None" in txt or "Optional" in txt or "Any" in txt or txt in ("object",):
+                return False
+        return True
 
     def _is_marker(self, t: FuncInfo, name: str) -> bool:
         """a module-level name bound exactly once, to a fresh `object()`: equal (identical) to nothing but itself"""
@@ -1100,6 +1171,35 @@ class Builder:
             elif isinstance(st, (ast.Global, ast.Nonlocal)) and name in st.names:
                 return False
         return n == 1
+
+    def _pair_assign(self, st: ast.stmt, rest: List[ast.stmt]):
+        """`a, ok = [await] helper(...)` (helper spliced in; every return of it a pair display of that length, at least one component a
+        literal in all of them; the names bound once) and a later statement of the block tests such a literal component
+        -> (names, (negated, await, call, helper), return statements)"""
+        if not (isinstance(st, ast.Assign) and len(st.targets) == 1 and isinstance(st.targets[0], ast.Tuple) and st.targets[0].elts
+                and all(isinstance(x, ast.Name) for x in st.targets[0].elts)):
+            return None
+        names = [x.id for x in st.targets[0].elts]
+        fc = self._flag_call(st.value)
+        if fc is None or fc[0]:
+            return None
+        if any(len(self.sc.defs.get(nm, [])) != 1 or nm in self.sc.params for nm in names) or len(set(names)) != len(names):
+            return None
+        t = fc[3]
+        rets = [x for x in self.an.scope(t)._own_nodes() if isinstance(x, ast.Return)]
+        if not rets or len(rets) > 4 or any(not (isinstance(r.value, ast.Tuple) and len(r.value.elts) == len(names)
+                                                  and not any(isinstance(e_, ast.Starred) for e_ in r.value.elts)) for r in rets):
+            return None
+        if not _always_leaves(list(t.node.body)):
+            return None  # (falling off the end would hand back None, which cannot be unpacked)
+        flags = [nm for j, nm in enumerate(names) if all(isinstance(r.value.elts[j], ast.Constant) and (r.value.elts[j].value is None or isinstance(r.value.elts[j].value, bool))
+                                                       for r in rets)]
+        if not flags or not any(self._flag_used(nm, rest, False) for nm in flags):
+            return None
+        for x in ast.walk(self.f.node):
+            if isinstance(x, (ast.Nonlocal, ast.Global)) and set(names) & set(x.names):
+                return None
+        return names, fc, rets
 
     def _flag_assign(self, st: ast.stmt, rest: List[ast.stmt]):
         """`flag = [await] helper(...)` (helper spliced in, flag bound once in this function) which a later statement of the
@@ -1149,7 +1249,7 @@ class Builder:
         elif isinstance(test, ast.Compare) and len(test.ops) == 1 and isinstance(test.ops[0], (ast.Is, ast.IsNot)) and isinstance(test.left, ast.Name) \
                 and isinstance(test.comparators[0], ast.Name) and (self.f.qual, test.left.id) in self.assume and self._is_marker(self.f, test.comparators[0].id):
             kind, v = self.assume[(self.f.qual, test.left.id)]
-            if kind in ("value", "other"):
+            if kind in ("value", "other", "other-nn"):
                 # the marker is identical to itself and to nothing else a helper of the package returns
                 same = isinstance(v, ast.Name) and v.id == test.comparators[0].id
                 res = same if isinstance(test.ops[0], ast.Is) else not same
@@ -1159,6 +1259,8 @@ class Builder:
             is_none: Optional[bool] = None
             if kind == "truth":
                 is_none = False if v else None
+            elif kind == "other-nn":
+                is_none = False
             elif kind == "other":
                 is_none = None
             else:
@@ -1175,6 +1277,7 @@ class Builder:
         e: ast.AST = call.func
         f, sc, env = self.f, self.sc, self.env
         first = True
+        hopped = False
         for _ in range(8):
             if not first and isinstance(e, ast.Attribute) and isinstance(e.value, ast.Name) and e.value.id == sc.selfname \
                     and f.cls is not None and self.an.prog.lookup(f.cls, e.attr) is not None:
@@ -1189,6 +1292,7 @@ class Builder:
                     self.an.partial_syn[key] = syn
                     self.an.partial_frame[key] = (f, env)
                     self.an.syn_by_call.setdefault(id(call), []).append(syn)
+                    self.an.syn_callee[id(syn)] = sc.callee(syn)
                 return sc.callee(syn)
             first = False
             if isinstance(e, ast.Call) and sc.callee(e).name.rpartition(".")[2] == "partial" and e.args:
@@ -1199,6 +1303,7 @@ class Builder:
                     self.an.partial_syn[key] = syn
                     self.an.partial_frame[key] = (f, env)
                     self.an.syn_by_call.setdefault(id(call), []).append(syn)
+                    self.an.syn_callee[id(syn)] = sc.callee(syn)
                     if f is not self.f or env is not self.env:
                         for x_ in list(e.args[1:]) + [k_.value for k_ in e.keywords]:
                             self.an.syn_arg_frame[id(x_)] = (f, env)  # the frozen arguments were written where the partial was built
@@ -1211,8 +1316,27 @@ class Builder:
                 f, e, env = env[e.id]
                 sc = self.an.scope(f)
                 e = strip_cast(e)
+                hopped = True
                 continue
             hows = sc.defs.get(e.id, [])
+            if hopped and (not hows and e.id not in sc.params or len(hows) == 1 and hows[0][0] == "def"):
+                # a helper was handed a function of the package by name (module level, imported, or a closure defined in the caller)
+                # and calls it: that function, with the helper's surplus arguments spelled out
+                probe = sc.callee(ast.copy_location(ast.Call(func=e, args=[], keywords=[]), e))
+                if probe.kind == "pkg" and probe.targets:
+                    key = (id(call), id(self.env))
+                    syn = self.an.partial_syn.get(key)
+                    if syn is None:
+                        args2, kws2 = self._expand_surplus(call)
+                        if args2 is None:
+                            return None
+                        syn = ast.copy_location(ast.Call(func=e, args=args2, keywords=kws2), call)
+                        self.an.partial_syn[key] = syn
+                        self.an.partial_frame[key] = (f, env)
+                        self.an.syn_by_call.setdefault(id(call), []).append(syn)
+                        self.an.syn_callee[id(syn)] = sc.callee(syn)
+                    return sc.callee(syn)
+                return None
             if len(hows) != 1 or hows[0][0] not in ("assign", "ann"):
                 return None
             e = strip_cast(hows[0][1] if hows[0][0] == "assign" else hows[0][2])
@@ -1314,6 +1438,12 @@ class Builder:
             elif isinstance(e, ast.Subscript):
                 n = self.mk("subscript", e, stmt)
                 toks = self.subscript_raises(n, e)
+            elif isinstance(e, ast.BinOp):
+                if not self._is_user_value(e.right):
+                    continue  # (formatting a value of a known type with %: no step of its own)
+                n = self.mk("format", e, stmt)
+                n.user = False
+                toks = [("x", ("builtins.TypeError", True))]
             else:
                 n = self.mk("yield", e, stmt)
                 n.suspends = True
@@ -1362,6 +1492,44 @@ class Builder:
             self._note_flag_tests(body)
         if self.an.known_funcs is not None:
             for i, st in enumerate(body):
+                pa = self._pair_assign(st, body[i + 1:])
+                if pa is not None:
+                    # `value, ok = helper()`: the rest of the block is built once per `return <pair>` of the helper, each copy knowing
+                    # the literal components (the status flag) and where the computed ones come from
+                    names, (_neg, aw, call, t), rets = pa
+                    conts: Dict[int, Node] = {}
+
+                    def route(rst: Optional[ast.Return], conts=conts, names=names, call=call, t=t, st=st, i=i) -> Node:
+                        key_ = id(rst)
+                        if key_ not in conts:
+                            frame = self._frame()
+                            self._restore(caller_frame)
+                            saved, saved_at = dict(self.assume), dict(self.assume_at)
+                            try:
+                                if rst is not None:
+                                    for nm, comp in zip(names, rst.value.elts):
+                                        k2 = (self.f.qual, nm)
+                                        if isinstance(comp, ast.Constant):
+                                            self.assume[k2] = ("value", comp)
+                                        else:
+                                            self.assume[k2] = ("other", comp)
+                                        self.assume_at[k2] = (frame[0], frame[2], comp)
+                                rn = self.mk("inl_ret", call, st)
+                                rn.inlined = t
+                                rest_entry = self.stmts(body[i + 1:], k, ctx)
+                                an_ = self.mk("assign", st, st)
+                                self.edge(an_, rest_entry)
+                                self.edge(rn, an_)
+                            finally:
+                                self.assume, self.assume_at = saved, saved_at
+                                self._restore(frame)
+                            conts[key_] = rn
+                        return conts[key_]
+
+                    caller_frame = self._frame()
+                    k = self._inline_routed(aw, call, t, route, ctx, st, lazy_fall=True)
+                    body = body[:i]
+                    break
                 fl = self._flag_assign(st, body[i + 1:])
                 if fl is None:
                     continue
@@ -1397,7 +1565,7 @@ class Builder:
                             try:
                                 rn = self.mk("inl_ret", call, st)
                                 rn.inlined = t
-                                self.edge(rn, cont(("other" if k_.startswith("other:") else "value", v_), (frame[0], frame[2], v_)))
+                                self.edge(rn, cont(("other-nn" if k_.startswith("other-nn:") else ("other" if k_.startswith("other:") else "value"), v_), (frame[0], frame[2], v_)))
                             finally:
                                 self._restore(frame)
                             conts[k_] = rn
@@ -1543,6 +1711,9 @@ class Builder:
             return ent
         if isinstance(st, ast.Return):
             n = self.mk("return" if not self.inline_stack else "ret_inl", st, st)  # only the root function's own returns are `return` steps
+            if self.inline_stack and self.env is not None:
+                # (the returns of a spliced helper that exist for this call site: an arm ruled out by a literal flag has none)
+                self.an.live_returns.setdefault(self.an.env_site.get(id(self.env)), set()).add(id(st))
             self.edge(n, ctx.ret_for(st) if ctx.ret_for is not None and st.value is not None else ctx.ret())
             return self.expr(st.value, n, ctx, st)
         if isinstance(st, ast.Raise):
